@@ -46,16 +46,32 @@ def run_one(ctl: explorer.Ctl, cfg: Dict[str, Any]) -> Dict[str, Any]:
     consumed: List[tuple] = []
     delivered: Dict[str, float] = {}
     st: Dict[str, Any] = {"scheduled": False, "stopped": False, "notes": 0, "answered": []}
-    ids = [f"call-{i}" for i in range(k)]
+    auto_ids = cfg.get("ids") == "auto"
+    ids: List[Any] = [None] * k if auto_ids else [f"call-{i}" for i in range(k)]
     results: Dict[int, Any] = {}
+
+    def learn_ids():
+        """Read what the callers wrote: with auto-generated ids the server learns each id from the request."""
+        try:
+            while True:
+                m = st["recv_w"].receive_nowait()
+                d = m.model_dump(exclude_none=True)
+                st["written"].append(d)
+                who = (d.get("params") or {}).get("who")
+                if d.get("method") == "tools/call" and who is not None and ids[who] is None:
+                    ids[who] = d.get("id")
+        except Exception:
+            pass
 
     async def caller(i, recv_r, send_w):
         if starts[i] > 0:
             await asyncio.sleep(starts[i])
         t0 = loop.time()
         try:
-            v = await send_message(Recorder(recv_r, consumed, loop, i), send_w, "tools/call", {"who": i},
-                                   timeout=Ts[i], message_id=ids[i])
+            w = send_w.clone() if cfg.get("write") == "clone" else send_w
+            kw = {} if auto_ids else {"message_id": ids[i]}
+            v = await send_message(Recorder(recv_r, consumed, loop, i), w, "tools/call", {"who": i},
+                                   timeout=Ts[i], **kw)
             results[i] = ("result", sched.jsonable(v), loop.time(), t0)
         except TimeoutError:
             results[i] = ("timeout", None, loop.time(), t0)
@@ -69,9 +85,10 @@ def run_one(ctl: explorer.Ctl, cfg: Dict[str, Any]) -> Dict[str, Any]:
         st["send_r"].send_nowait(parse_message(wire))
 
     def idle(lp):
+        learn_ids()
         if st["scheduled"] or st["stopped"]:
             return
-        remaining = [i for i in range(k) if i not in st["answered"]]
+        remaining = [i for i in range(k) if i not in st["answered"] and ids[i] is not None]
         options = [("resp", i) for i in remaining]
         if st["notes"] < max_notes:
             options.append(("note", None))
@@ -103,6 +120,8 @@ def run_one(ctl: explorer.Ctl, cfg: Dict[str, Any]) -> Dict[str, Any]:
         send_w, recv_w = anyio.create_memory_object_stream(math.inf)
         send_r, recv_r = anyio.create_memory_object_stream(math.inf)
         st["send_r"] = send_r
+        st["recv_w"] = recv_w
+        st["written"] = []
         tasks = [asyncio.ensure_future(caller(i, recv_r, send_w)) for i in range(k)]
         await asyncio.gather(*tasks)
 
@@ -120,6 +139,11 @@ def run_one(ctl: explorer.Ctl, cfg: Dict[str, Any]) -> Dict[str, Any]:
     def bad(cls, msg, **extra):
         viol.append({"sig": {"class": cls, **extra}, "msg": f"cfg={cfg} delivered={delivered}: {msg}"})
 
+    learn_ids()
+    if auto_ids:
+        seen = [x for x in ids if x is not None]
+        if len(set(map(repr, seen))) != len(seen):
+            bad("duplicate-request-ids", f"outstanding requests on one connection share an id: {ids}")
     summary = []
     for i in range(k):
         kind, v, t_done, t0 = results[i]
@@ -134,7 +158,8 @@ def run_one(ctl: explorer.Ctl, cfg: Dict[str, Any]) -> Dict[str, Any]:
         elif kind == "timeout":
             if mine is not None and t0 - 1e-12 <= mine < deadline - 1e-9:
                 # who took it?
-                takers = [who for (t, who, item) in consumed if getattr(item, "id", None) == ids[i]]
+                takers = [who for (t, who, item) in consumed if getattr(item, "id", None) == ids[i]
+                          and getattr(item, "method", None) is None]
                 if not takers:
                     loss = "never-consumed"
                 elif i in takers:
@@ -156,12 +181,131 @@ def run_one(ctl: explorer.Ctl, cfg: Dict[str, Any]) -> Dict[str, Any]:
     return obs
 
 
+# ---------------------------------------------------------------------------
+# the same property through the real stdio transport (scripted child)
+# ---------------------------------------------------------------------------
+RUN_STDIO = "vf.checks.c18:run_stdio"
+
+
+def run_stdio(ctl: explorer.Ctl, cfg: Dict[str, Any]) -> Dict[str, Any]:
+    import asyncio
+    import itertools
+    import json
+
+    from chuk_mcp.protocol.messages.send_message import send_message
+    from chuk_mcp.transports.stdio.stdio_client import stdio_client
+
+    from .. import seams
+
+    k = cfg["k"]
+    loop = new_loop(horizon=30)
+    proc = seams.FakeProcess()
+    seen: Dict[int, Any] = {}
+    consumed: List[tuple] = []
+    delivered: Dict[str, float] = {}
+    results: Dict[int, Any] = {}
+    st = {"answered": False}
+    buf = {"b": b""}
+
+    def on_stdin(data: bytes):
+        buf["b"] += data
+        while b"\n" in buf["b"]:
+            line, buf["b"] = buf["b"].split(b"\n", 1)
+            try:
+                d = json.loads(line.decode("utf-8"))
+            except Exception:
+                continue
+            who = (d.get("params") or {}).get("who")
+            if d.get("method") == "tools/call" and who is not None:
+                seen[who] = d.get("id")
+
+    proc.on_stdin = on_stdin
+    perms = list(itertools.permutations(range(k)))
+
+    def idle(lp):
+        if st["answered"] or len(seen) < k:
+            return
+        st["answered"] = True
+        order = perms[ctl.choose(len(perms), "answer-order")]
+        grouping = ["one-chunk", "chunk-per-line", "split-mid-line"][ctl.choose(3, "grouping")]
+        lines = [(json.dumps({"jsonrpc": "2.0", "id": seen[i], "result": {"for": i}}) + "\n").encode() for i in order]
+        for i in order:
+            delivered[str(i)] = lp.time()
+        if grouping == "one-chunk":
+            proc.stdout.feed(b"".join(lines))
+        elif grouping == "chunk-per-line":
+            for ln in lines:
+                proc.stdout.feed(ln)
+        else:
+            blob = b"".join(lines)
+            cut = len(lines[0]) + 5
+            proc.stdout.feed(blob[:cut])
+            proc.stdout.feed(blob[cut:])
+
+    async def caller(i, read, write):
+        t0 = loop.time()
+        try:
+            kw = {} if cfg.get("ids") == "auto" else {"message_id": f"call-{i}"}
+            v = await send_message(Recorder(read, consumed, loop, i), write, "tools/call", {"who": i}, timeout=1.0, **kw)
+            results[i] = ("result", sched.jsonable(v), loop.time(), t0)
+        except TimeoutError:
+            results[i] = ("timeout", None, loop.time(), t0)
+        except BaseException as e:  # noqa: BLE001
+            results[i] = ("exc", repr(e)[:120], loop.time(), t0)
+
+    async def main():
+        with seams.patched_open_process(lambda cmd, kw: proc):
+            async with stdio_client(seams.stdio_params()) as (read, write):
+                await asyncio.gather(*[asyncio.ensure_future(caller(i, read, write)) for i in range(k)])
+
+    loop.idle_hook = idle
+    status, val = loop.run_main(main())
+    errors = loop.collect_errors()
+    loop.abandon()
+    viol: List[dict] = []
+    if status != "ok":
+        return {"outcome": status, "violations": [{"sig": {"class": "did-not-finish", "carrier": "stdio"},
+                                                   "msg": f"cfg={cfg}: {status} {val!r}"}]}
+
+    def bad(cls, msg, **extra):
+        viol.append({"sig": {"class": cls, "carrier": "stdio", **extra}, "msg": f"cfg={cfg} delivered={delivered}: {msg}"})
+
+    summary = []
+    for i in range(k):
+        kind, v, t_done, t0 = results[i]
+        summary.append(kind)
+        if kind == "result":
+            if v != {"for": i}:
+                bad("cross-talk", f"caller {i} returned {v!r}")
+        elif kind == "timeout":
+            if str(i) in delivered:
+                takers = [who for (t, who, item) in consumed if getattr(item, "id", None) == seen.get(i)
+                          and getattr(item, "method", None) is None]
+                loss = "never-consumed" if not takers else ("consumed-by-owner-not-returned" if i in takers
+                                                            else "consumed-by-other-waiter")
+                bad("lost-response", f"caller {i} timed out although the child wrote its response at {delivered[str(i)]}; "
+                                     f"taken from the read stream by {takers}", loss=loss)
+        else:
+            bad("unexpected-exception", f"caller {i}: {v}")
+    if errors:
+        bad("loop-error", f"{errors[:2]}")
+    return {"outcome": "/".join(summary), "violations": viol}
+
+
 def configs_for(tier: str):
     parts = {}
     parts["k2-notes2"] = [
         {"k": 2, "T": T, "notes": 2, "rich": True, "starts": s}
         for T in ([1.0, 1.0], [0.3, 1.2], [1.2, 0.3])
         for s in ([0.0, 0.0], [0.0, 0.1])
+    ]
+    parts["k2-auto-ids"] = [
+        {"k": 2, "T": T, "notes": 1, "rich": False, "starts": s, "ids": "auto", "write": w}
+        for T in ([1.0, 1.0], [0.3, 1.2]) for s in ([0.0, 0.0], [0.0, 0.1]) for w in ("same", "clone")
+    ]
+    parts["k3-auto-ids"] = [
+        {"k": 3, "T": [1.0, 1.0, 1.0], "notes": 0, "rich": False, "starts": [0.0, 0.0, 0.0], "ids": "auto", "write": w}
+        for w in ("same", "clone")
     ]
     parts["k3-notes" + ("1" if tier == "quick" else "2")] = [
         {"k": 3, "T": T, "notes": 1 if tier == "quick" else 2, "rich": False, "starts": [0.0, 0.0, 0.0]}
@@ -180,12 +324,18 @@ def run(tier: str, only=None) -> core.Result:
             continue
         out = explorer.explore(RUN, cfgs)
         sched.absorb(res, name, RUN, out, cfgs)
+    scfgs = [{"k": k, "ids": ids} for k in ((2, 3) if tier == "quick" else (2, 3, 4)) for ids in ("explicit", "auto")]
+    if not only or "stdio" in only:
+        out = explorer.explore(RUN_STDIO, scfgs)
+        sched.absorb(res, "stdio-carrier", RUN_STDIO, out, scfgs)
     res.coverage["exhaustive"] = True
     res.coverage["rule"] = (
         "k concurrent send_message callers (k=2,3; thorough 4) on one stream pair; every order in which the server answers "
         "(including never answering some), every interleaving with up to 2 unrelated notifications, every placement of each "
         "action from the anchor-relative time menu (now, +1us, just before / on (both tie orders) / just after the next "
-        "library timer), equal and unequal per-caller timeouts, simultaneous and staggered starts"
+        "library timer), equal and unequal per-caller timeouts, simultaneous and staggered starts; auto-generated ids through the same and through cloned "
+        "write streams; the same through the real stdio transport (scripted child): every answer order x {all answers in one chunk, "
+        "one chunk per line, chunk boundary mid-line}"
     )
     res.assumptions = [
         "responses are delivered at most once each and only after the environment decided to send them",
